@@ -384,7 +384,7 @@ class _ScopeContext:
 
         else:
             if a := ast.ifs:
-                stack.extend(a)
+                stack.extend(a[::-1])  # stack is popped from the end so reversed here for forward order
 
             if (a := ast.iter) is not self.scope_first_iter:
                 stack.append(a)
